@@ -111,7 +111,9 @@ EXPORT errno_t _memcpy16_s_chk(uint16_t *dest, rsize_t dmax,
         BND_CHK_PTR_BOUNDS(src, smax);
     } else {
         if (unlikely(smax > srcbos)) {
-            invoke_safe_mem_constraint_handler("memcmp16_s: slen exceeds src",
+            mem_prim_set(dest, dmax, 0);
+            MEMORY_BARRIER;
+            invoke_safe_mem_constraint_handler("memcpy16_s: slen exceeds src",
                                                (void *)src, ESLEMAX);
             return (RCNEGATE(ESLEMAX));
         }
